@@ -483,6 +483,9 @@ func (w *cliWorld) logString() string {
 }
 
 func slotOf(id [12]byte) rune {
+	if id[4] == 0xEE {
+		return '#'
+	}
 	for s := 0; s < 5; s++ {
 		if cliID(s) == id {
 			return rune('A' + s)
